@@ -351,6 +351,49 @@ func checkC12(c *Ctx) *core.Result {
 			r.Fail("K2", core.QualName(gate), "gate reads "+f, p.Pos(gate.Pos()), "the gate depends on a field other than the `--x` and `#` counters")
 		}
 	}
+	// the gate opens exactly when a counter is non-zero: every way it answers true holds a
+	// fact "counter ≠ 0" (and the ways together test both counters)
+	{
+		nonZero := func(f ssax.Fact) (string, bool) {
+			bo, ok := f.Cond.(*ssa.BinOp)
+			if !ok {
+				return "", false
+			}
+			lf, ok := ssax.LoadedField(f.Arg(bo.X))
+			if !ok || lf.Struct != stName {
+				return "", false
+			}
+			k, isK := ssax.ConstInt(bo.Y)
+			if !isK || k != 0 {
+				return "", false
+			}
+			switch {
+			case bo.Op == token.NEQ && f.True, bo.Op == token.EQL && !f.True, bo.Op == token.GTR && f.True, bo.Op == token.LEQ && !f.True:
+				return lf.Field, true
+			}
+			return "", false
+		}
+		ways := ssax.TrueWays(gate, nil, 0)
+		tested := map[string]bool{}
+		okAll := len(ways) > 0
+		for _, w := range ways {
+			has := false
+			for _, f := range w.Facts {
+				if fld, ok := nonZero(f); ok && (fld == ddx || fld == hash) {
+					has = true
+					tested[fld] = true
+				}
+			}
+			if !has {
+				okAll = false
+			}
+		}
+		if okAll && tested[ddx] && tested[hash] {
+			r.OK("K2", core.QualName(gate), "gate opens iff a comment counter is non-zero", p.Pos(gate.Pos()), fmt.Sprintf("%d way(s) of answering true, each under counter ≠ 0", len(ways)))
+		} else {
+			r.Fail("K2", core.QualName(gate), "gate opens iff a comment counter is non-zero", p.Pos(gate.Pos()), "the MySQL re-parse gate can answer true without a comment counter being non-zero, or does not test both counters for ≠ 0: the second dialect would be tried (or skipped) for the wrong inputs")
+		}
+	}
 	// reachability from tokenize (dispatch goes through the table)
 	fromTok := map[*ssa.Function]bool{}
 	var walk func(fn *ssa.Function)
